@@ -214,7 +214,7 @@ class World:
                     return plan
                 stubs[c.func.id] = Stub("prune", prune)
             elif fs and all(f is not rr.rewrite and f.name != "get_mutable_plan" for f in fs) and \
-                    all(f.module is ap.module for f in fs) and all(f.name.startswith("_update") for f in fs):
+                    all(f.name.startswith("_update") and f.name.endswith("totals") for f in fs):
                 stubs[c.func.id] = Stub("totals", lambda *a, **k: None)
         self.interp.stubs = stubs
         env_params = {"plan": self.plan, "registry": registry, "output_node": output_node, "max_workers": None,
